@@ -69,7 +69,7 @@ def temperature_grids(rng, tier):
     grids = [[0.0, 0.01, 0.05, 0.2, 0.5, 1.0, 2.5, 3.0],
              [0.0, 0.5, 1.0, 2.5, 5.0, 300.0],
              [0.01, 0.02, 0.1, 0.3, 1.5, 3.04, 3.05]]
-    n = 12 if tier == "quick" else 70
+    n = 12 if tier == "quick" else 300
     for i in range(n):
         dt = [0.5, 1.0, 5.0, 50.0, 500.0][i % 5]
         tmin = [0.0, 0.0, 0.01, 0.15, 1.0, 3.0, 100.0][rng.randrange(7)] if i % 3 else 0.0
@@ -230,7 +230,7 @@ def build_configs(rng, tier):
         elif m == "hermite":
             os_ = os_[:2]
         pairs += [(m, o) for o in sorted(os_)]
-    reps = 2 if tier == "quick" else 10
+    reps = 2 if tier == "quick" else 30
     n = 0
     for rep in range(reps):
         for (m, o) in pairs:
